@@ -12,33 +12,40 @@ pub fn run(args: &[String]) {
   let outp = arg_value(args, "--out").expect("--out");
   silence_panics();
   let mut rng = Rng::new(seed_from_env() ^ 0x15);
-  let res = run_isolated(scenes.len(), |i, out| {
-    let sc = &scenes[i];
+  // groups of GROUP scenes share one core: every scene is loaded during the vertical blanking that follows the
+  // previous frame, so that state left behind by one frame (line caches, window counters) would show in the next
+  let group = arg_usize(args, "--group", 3);
+  let ngroups = (scenes.len() + group - 1) / group;
+  let res = run_isolated(ngroups, |g, out| {
     let mut core = plain_core();
-    let p = mem_ptr(&mut core);
-    for (k, v) in sc["vram"].as_array().unwrap().iter().enumerate() { core.memory.video_ram[k] = ju(v) as u8; }
-    for (k, v) in sc["oam"].as_array().unwrap().iter().enumerate() { core.memory.oam_ram[k] = ju(v) as u8; }
-    for (reg, key) in [(0xff40u16, "lcdc"), (0xff42, "scy"), (0xff43, "scx"), (0xff47, "bgp"), (0xff48, "obp0"), (0xff49, "obp1"), (0xff4a, "wy"), (0xff4b, "wx")].iter() {
-      memory_write_byte(p, *reg, ju(&sc[*key]) as u8);
+    for i in (g * group)..((g + 1) * group).min(scenes.len()) {
+      let sc = &scenes[i];
+      let p = mem_ptr(&mut core);
+      for (k, v) in sc["vram"].as_array().unwrap().iter().enumerate() { core.memory.video_ram[k] = ju(v) as u8; }
+      for (k, v) in sc["oam"].as_array().unwrap().iter().enumerate() { core.memory.oam_ram[k] = ju(v) as u8; }
+      for (reg, key) in [(0xff40u16, "lcdc"), (0xff42, "scy"), (0xff43, "scx"), (0xff47, "bgp"), (0xff48, "obp0"), (0xff49, "obp1"), (0xff4a, "wy"), (0xff4b, "wx")].iter() {
+        memory_write_byte(p, *reg, ju(&sc[*key]) as u8);
+      }
+      // one whole frame period from the start of VBlank: lines 144..153, then 0..143, then the hand-over
+      let mut left = 70224usize;
+      let mut vblanks = 0;
+      while left > 0 {
+        let b = (4 * (1 + rng.below(300) as usize)).min(left);
+        let m = &mut core.memory;
+        let f = m.io.video.run_clock_cycles(ClockCycles(b), &m.video_ram, &m.oam_ram);
+        if f.as_u8() & 1 != 0 { vblanks += 1; }
+        left -= b;
+      }
+      let frame: Vec<u8> = core.memory.io.video.get_visible_buffer().to_vec();
+      let mut rec = sc.clone();
+      rec["frame"] = json!(frame);
+      rec["vblanks"] = json!(vblanks);
+      rec["order_in_group"] = json!(i - g * group);
+      out.extend_from_slice(rec.to_string().as_bytes()); out.push(b'\n');
     }
-    // one whole frame period from power-on (start of VBlank): lines 144..153, then 0..143, then the hand-over
-    let mut left = 70224usize;
-    let mut vblanks = 0;
-    while left > 0 {
-      let b = (4 * (1 + rng.below(300) as usize)).min(left);
-      let m = &mut core.memory;
-      let f = m.io.video.run_clock_cycles(ClockCycles(b), &m.video_ram, &m.oam_ram);
-      if f.as_u8() & 1 != 0 { vblanks += 1; }
-      left -= b;
-    }
-    let frame: Vec<u8> = core.memory.io.video.get_visible_buffer().to_vec();
-    let mut rec = sc.clone();
-    rec["frame"] = json!(frame);
-    rec["vblanks"] = json!(vblanks);
-    out.extend_from_slice(rec.to_string().as_bytes()); out.push(b'\n');
   });
   let mut f = std::io::BufWriter::new(std::fs::File::create(&outp).unwrap());
   for l in &res.lines { writeln!(f, "{}", l).unwrap(); }
-  for (i, st) in &res.crashes { println!("{}", json!({"kind": "crash", "id": scenes[*i]["id"], "status": describe_status(*st)})); }
+  for (g, st) in &res.crashes { println!("{}", json!({"kind": "crash", "group": g, "id": scenes[(*g * group).min(scenes.len() - 1)]["id"], "status": describe_status(*st)})); }
   println!("{}", json!({"kind": "summary", "scenes": scenes.len(), "rendered": res.lines.len(), "crashes": res.crashes.len()}));
 }
